@@ -112,6 +112,22 @@ WAVE6 = {
 for k, v in WAVE6.items():
     EXTRA[k] = EXTRA.get(k, "") + v
 
+# seventh wave (DESIGN.md section 6h)
+WAVE7 = {
+ "C01": " Since wave 7: requests issued in different script steps must arrive in step order whichever clones carried them (one caller, several clones); the foreign executor hands a new waker to every poll and ignores wake-ups through older ones; Advance steps of hours and days.",
+ "C03": " Since wave 7: one value of 8, 16, 32 MiB (thorough 64, 128 MiB); interrupted receive attempts made from a destructor while the thread unwinds.",
+ "C05": " Since wave 7: silence of 1 h - 50 days of virtual time; poll_shutdown that never completes or fails.",
+ "C08": " Since wave 7: Script.shutdown_behaviour (the transport's poll_shutdown completes / never completes / fails).",
+ "C12": " Since wave 7: all pairs of timestamps of a decoded listing through cmp/partial_cmp/==/sort/dedup/max, time edges with shortened and missing zone designators; List::values()/into_iter() through every adaptor, bulk consumer and ExactSizeIterator::len.",
+ "C14": " Since wave 7: timestamps with non-UTC zone designators (under chrono the wall-clock reading and the offset of chrono_datetime() must be the ones written); every third variant is decoded after 16 FAILING typed conversions on the same thread.",
+ "C16": " Since wave 7: List::values()/into_iter() must agree with the sent values under every adaptor (nth_back, rev, rfold, try_rfold, len, enumerate/zip/skip/take from the back); playlist timestamps with offsets (chrono: offset and wall clock preserved) compared pairwise; failing typed conversions first on the thread.",
+ "C17": " Since wave 7: 14 URI shapes incl. URI schemes (http, file, nfs, smb, cdda, '://'); pictures starting with PNG/JPEG/GIF/WEBP signatures under 8 MIME strings incl. mismatching ones.",
+ "C18": " The quick tier also makes two connects with a 31 s real-time pause inside the greeting (thorough: 61, 121 s).",
+ "C19": " Since wave 7: fold/rfold/for_each/try_fold/try_rfold compared by order (also on partly consumed iterators), ExactSizeIterator::len at every stage and the adaptors built on it, FusedIterator behaviour, for all four protocol-layer iterators.",
+}
+for k, v in WAVE7.items():
+    EXTRA[k] = EXTRA.get(k, "") + v
+
 BUILT = sys.argv[1].split(",") if len(sys.argv) > 1 else []
 
 checks = []
